@@ -105,7 +105,7 @@ func getKnownLedger() *ledger.Ledger {
 // formatKnown formats the base block on top of the known ledger's tip and confirms it there.
 var knownErr string
 
-func formatKnown(p base) (*pb.InternalBlock, bool) {
+func formatKnown(p base, confirm bool) (*pb.InternalBlock, bool) {
 	l := getKnownLedger()
 	knownSeq++
 	var qc *pb.QuorumCert
@@ -125,6 +125,9 @@ func formatKnown(p base) (*pb.InternalBlock, bool) {
 	b, err := l.FormatMinerBlock(txs, []byte(a.Address), a.Pri, 1700000000+int64(knownSeq), 3, 7, meta.TipBlockid, p.tb, big.NewInt(0), qc, failed, meta.TrunkHeight+1)
 	if err != nil {
 		return nil, false
+	}
+	if !confirm {
+		return b, true
 	}
 	if st := l.ConfirmBlock(proto.Clone(b).(*pb.InternalBlock), false); !st.Succ {
 		knownErr = fmt.Sprint(st.Error)
@@ -598,6 +601,69 @@ func mutate1(b *pb.InternalBlock, p base, a []string, arg func(int) int) string 
 		}
 		b.MerkleTree[len(b.MerkleTree)-1], _ = flipLast(b.MerkleTree[len(b.MerkleTree)-1])
 		return "obs"
+	case "fixleaves":
+		// the carried merkle tree is outside id and signature: a forger who changed the body can rewrite its
+		// leaves to the new txids and leave the inner nodes and the root as the proposer computed them
+		if len(b.MerkleTree) == 0 {
+			return ""
+		}
+		for i, t := range b.Transactions {
+			if i < len(b.MerkleTree) {
+				b.MerkleTree[i] = t.GetTxid()
+			}
+		}
+		return "accept"
+	case "fixtree":
+		// ... or recompute the whole carried tree from the new body and put the signed root back on top
+		if len(b.MerkleTree) == 0 || len(b.Transactions) == 0 {
+			return ""
+		}
+		b.MerkleTree = ledger.MakeMerkleTree(b.Transactions)
+		b.MerkleTree[len(b.MerkleTree)-1] = append([]byte{}, b.MerkleRoot...)
+		return "accept"
+	case "fixlevels":
+		// ... or recompute only the k lowest levels (leaves = level 0) and keep every node above them as signed
+		k := arg(1)
+		nt := ledger.MakeMerkleTree(b.Transactions)
+		if len(b.MerkleTree) == 0 || len(nt) != len(b.MerkleTree) {
+			return ""
+		}
+		cnt, w := 0, (len(nt)+1)/2
+		for j := 0; j < k && w >= 1; j++ {
+			cnt += w
+			w /= 2
+		}
+		if cnt >= len(nt) {
+			return "" // that would replace the root as well: not a tree under the signed root any more
+		}
+		copy(b.MerkleTree[:cnt], nt[:cnt])
+		return "accept"
+	case "droptree":
+		// the ledger stores the carried tree with the header and lists the body of the stored block from its leaves
+		// (queryBlock): a block without it, or with other leaves, is not the block the proposer signed once stored
+		if len(b.MerkleTree) == 0 {
+			return ""
+		}
+		b.MerkleTree = nil
+	case "leafswap":
+		i, j := arg(1), arg(2)
+		if i >= len(b.Transactions) || j >= len(b.Transactions) || i == j || len(b.MerkleTree) < len(b.Transactions) {
+			return ""
+		}
+		b.MerkleTree[i], b.MerkleTree[j] = b.MerkleTree[j], b.MerkleTree[i]
+	case "leafflip":
+		i := arg(1)
+		if i >= len(b.Transactions) || len(b.MerkleTree) < len(b.Transactions) {
+			return ""
+		}
+		b.MerkleTree[i], _ = flipLast(b.MerkleTree[i])
+	case "leafdup":
+		// leaf i overwritten with leaf j: the stored body would list transaction j twice
+		i, j := arg(1), arg(2)
+		if i >= len(b.Transactions) || j >= len(b.Transactions) || i == j || len(b.MerkleTree) < len(b.Transactions) {
+			return ""
+		}
+		b.MerkleTree[i] = append([]byte{}, b.MerkleTree[j]...)
 	case "txdrop":
 		i := arg(1)
 		if i >= len(b.Transactions) {
@@ -706,12 +772,24 @@ func execVb(line string, oracle bool) string {
 	vl := getLedger()
 	if m["known"] == "1" && p.n >= 1 && p.ph == 1 && p.d == 0 {
 		// the honest block is confirmed first; the copy that is verified carries the same header
-		kb, ok := formatKnown(p)
+		kb, ok := formatKnown(p, true)
 		if !ok {
 			out.Violate(xvlib.Violation{Key: "formatted-block-not-confirmed", What: "a block formatted by FormatMinerBlock on the ledger's tip is refused by ConfirmBlock", Ops: []string{line}, Impl: []string{knownErr}})
 			return "format-error"
 		}
 		b, vl = kb, getKnownLedger()
+	}
+	stored := m["stored"] == "1" && p.n >= 1 && p.d == 0
+	var parent []byte
+	if stored {
+		// the block extends the tip of the known ledger; if the (mutated) copy passes VerifyBlock it is confirmed, as
+		// the node does with a synchronised block (miner.batchConfirmBlock), and read back from storage
+		kb, ok := formatKnown(p, false)
+		if !ok {
+			return "format-error"
+		}
+		b, vl = kb, getKnownLedger()
+		parent = vl.GetMeta().TipBlockid
 	}
 	orig := b
 	b = proto.Clone(b).(*pb.InternalBlock)
@@ -726,6 +804,9 @@ func execVb(line string, oracle bool) string {
 	res := "reject"
 	if ok {
 		res = "accept"
+	}
+	if stored && ok {
+		readBack(line, vl, parent, b, oracle)
 	}
 	if !oracle {
 		return res
@@ -754,6 +835,52 @@ func execVb(line string, oracle bool) string {
 		out.Count("noop-mutation:" + res)
 	}
 	return res
+}
+
+// readBack confirms a block that passed VerifyBlock and reads it back from storage the way state.Walk obtains the
+// blocks it plays (FindUndoAndTodoBlocks reads through queryBlock, not through the block cache).  The block the ledger
+// serves under that id must carry exactly the ordered transaction list that was verified.
+func readBack(line string, l *ledger.Ledger, parent []byte, sent *pb.InternalBlock, oracle bool) {
+	want := make([]string, len(sent.Transactions))
+	for i, t := range sent.Transactions {
+		want[i] = hx(t.Txid)
+	}
+	if st := l.ConfirmBlock(proto.Clone(sent).(*pb.InternalBlock), false); !st.Succ {
+		out.Count("stored:verified-but-not-confirmed")
+		return
+	}
+	got, problem := func() (got []string, problem string) {
+		defer func() {
+			if r := recover(); r != nil {
+				problem = fmt.Sprintf("panic: %v", r)
+			}
+		}()
+		_, todo, err := l.FindUndoAndTodoBlocks(parent, sent.Blockid)
+		if err != nil {
+			return nil, "error: " + err.Error()
+		}
+		if len(todo) != 1 {
+			return nil, fmt.Sprintf("%d blocks to play instead of 1", len(todo))
+		}
+		for _, t := range todo[0].Transactions {
+			got = append(got, hx(t.Txid))
+		}
+		return got, ""
+	}()
+	out.Count("stored:read-back")
+	if !oracle {
+		return
+	}
+	switch {
+	case problem != "":
+		out.Violate(xvlib.Violation{Key: "verified-block-unreadable",
+			What: "a block passes VerifyBlock and is confirmed, but the ledger cannot read it back from storage (" + problem + ")",
+			Ops:  []string{line}, Impl: []string{problem}})
+	case strings.Join(got, ",") != strings.Join(want, ","):
+		out.Violate(xvlib.Violation{Key: "verified-block-stored-with-other-body",
+			What: "a block passes VerifyBlock and is confirmed, but the block the ledger serves under its id (read from storage, as state.Walk does) carries another ordered transaction list than the one that was verified: its merkle root is not the root of its body",
+			Ops:  []string{line}, Impl: []string{"verified " + strings.Join(want, ","), "stored   " + strings.Join(got, ",")}})
+	}
 }
 
 // ---------------------------------------------------------------- exec / generate
@@ -832,6 +959,25 @@ func randBlock(r *xvlib.Rng) *pb.InternalBlock {
 	return b
 }
 
+// storedWorthwhile: mutations after which a block may still pass VerifyBlock (unmutated, fields outside the id, the
+// carried tree): those are confirmed and read back
+func storedWorthwhile(m string) bool {
+	for _, pre := range []string{"none", "inc:height", "flip:fkey0", "jshift", "fshift", "mtree", "droptree", "leafswap", "leafflip", "leafdup", "txcontent", "takeover"} {
+		if m == pre || strings.HasPrefix(m, pre+":") {
+			return true
+		}
+	}
+	return false
+}
+
+func leafCount(n int) int {
+	w := 1
+	for w < n {
+		w *= 2
+	}
+	return w
+}
+
 func mutationsFor(p base, r *xvlib.Rng, all bool) []string {
 	ms := []string{"none"}
 	hdr := []string{"inc:version", "inc:nonce", "inc:txcount", "dec:txcount", "inc:timestamp", "inc:curterm", "inc:curblocknum",
@@ -842,7 +988,9 @@ func mutationsFor(p base, r *xvlib.Rng, all bool) []string {
 	for _, h := range hdr {
 		ms = append(ms, h, h+"+reid")
 	}
-	ms = append(ms, "inc:height", "flip:fkey0", "jshift", "fshift", "mtree", "takeover",
+	ms = append(ms, "inc:height", "flip:fkey0", "jshift", "fshift", "mtree", "droptree", "takeover",
+		"leafswap:0:1", fmt.Sprintf("leafswap:0:%d", p.n-1), fmt.Sprintf("leafflip:%d", r.Intn(p.n)), fmt.Sprintf("leafflip:%d", p.n-1),
+		"leafdup:0:1", fmt.Sprintf("leafdup:%d:0", p.n-1),
 		"flip:sign", "clear:sign", "flip:blockid", "clear:blockid", "signother", "pkother", "pkother+signother", "pkother+reid+signother", "pkother+reid")
 	idx := func() int { return r.Intn(p.n) }
 	body := []string{}
@@ -874,6 +1022,13 @@ func mutationsFor(p base, r *xvlib.Rng, all bool) []string {
 		ms = append(ms, m)
 		if !strings.HasPrefix(m, "txcontent") {
 			ms = append(ms, m+"+fixbody", m+"+inc:txcount", m+"+dec:txcount")
+			// coordinated tamper: the body and the carried merkle tree (outside id and signature) are changed together
+			ms = append(ms, m+"+fixleaves", m+"+fixtree")
+			if strings.HasPrefix(m, "txflip") || strings.HasPrefix(m, "txswap") {
+				for k, w := 2, leafCount(p.n)/4; w >= 2; k, w = k+1, w/2 {
+					ms = append(ms, fmt.Sprintf("%s+fixlevels:%d", m, k))
+				}
+			}
 		}
 	}
 	return ms
@@ -939,6 +1094,10 @@ func genC08(tier string, rng *xvlib.Rng, run func(string, bool)) {
 					// the same mutation of a copy of a block this ledger has already confirmed
 					run(l+" known=1", m != "none")
 				}
+				if p.d == 0 && storedWorthwhile(m) {
+					// the mutated block extends the ledger's tip: if it passes it is confirmed and read back from storage
+					run(l+" stored=1", true)
+				}
 				if nb < 2 && strings.HasPrefix(m, "txdup") {
 					out.Sample(map[string]string{"op": l, "impl": execC08(l, false)})
 					nb++
@@ -950,8 +1109,8 @@ func genC08(tier string, rng *xvlib.Rng, run func(string, bool)) {
 	run(fmt.Sprintf("vb %s m=none", base{n: 0, qc: -1, ph: 1}), true)
 	run(fmt.Sprintf("vb %s m=none", base{n: 2, qc: -1, ph: 0}), true)
 	out.Stats.Exhaustive = false
-	out.Stats.Rule = fmt.Sprintf("leaf: every n ≤ %d (+ neighbours of 2^10..2^12); shape: whole MakeMerkleTree array for every n ≤ 300; pre: %d random header field assignments (extracted schema bytes, double-SHA-256 checked against MakeBlockID); vb: node-formatted blocks with n ∈ %v transactions × %d parameter draws (justify none/0/1/3 signatures, 0–3 failed txs, target bits 0/5/-3/1, 3 proposer keys) × every single mutation of each header field, justify/failed-tx structure, body (drop/insert/duplicate/swap/alter/nil/truncate/shift at every position for n ≤ 9, else first/last/random) and signature, each alone and followed by the recomputations a forger can do (id, count, root); a case is non-trivial unless it is leaf 0 / shape 0 / an unmutated block; distinct by op line", maxLeaf, nPre, ns, perN)
+	out.Stats.Rule = fmt.Sprintf("leaf: every n ≤ %d (+ neighbours of 2^10..2^12); shape: whole MakeMerkleTree array for every n ≤ 300; pre: %d random header field assignments (extracted schema bytes, double-SHA-256 checked against MakeBlockID); vb: node-formatted blocks with n ∈ %v transactions × %d parameter draws (justify none/0/1/3 signatures, 0–3 failed txs, target bits 0/5/-3/1, 3 proposer keys) × every single mutation of each header field, justify/failed-tx structure, body (drop/insert/duplicate/swap/alter/nil/truncate/shift at every position for n ≤ 9, else first/last/random) and signature, each alone and followed by the recomputations a forger can do (id, count, root; the leaves / the k lowest levels / all nodes below the root of the carried merkle tree, which is outside id and signature); the carried tree alone (leaves swapped / doubled / altered, tree dropped); blocks that may still pass are also confirmed on a second ledger and read back from storage (stored=1); a case is non-trivial unless it is leaf 0 / shape 0 / an unmutated block; distinct by op line", maxLeaf, nPre, ns, perN)
 	out.Stats.Notes = append(out.Stats.Notes,
-		"observations (distribution keys observation:*): fields outside the id — Height, FailedTxs keys, TargetBits ≤ 0, stored MerkleTree — and two-field boundary shifts (jshift, fshift) are accepted unchanged; a consistent block re-issued under another proposer+key (takeover) verifies (proposer entitlement is C16); transaction content with unchanged Txid (txcontent) is not seen by VerifyBlock (txid recomputation is C07); a formatted block with 0 transactions or empty PreHash does not verify",
+		"observations (distribution keys observation:*): fields outside the id — Height, FailedTxs keys, TargetBits ≤ 0 — and two-field boundary shifts (jshift, fshift) are accepted unchanged; the carried MerkleTree is outside the id but must be the tree of the body (mtree: its top node altered, rejected since the repair); a consistent block re-issued under another proposer+key (takeover) verifies (proposer entitlement is C16); transaction content with unchanged Txid (txcontent) is not seen by VerifyBlock (txid recomputation is C07); a formatted block with 0 transactions or empty PreHash does not verify",
 		"not covered: consensus CheckMinerMatch wrappers (C16 / C14)")
 }
